@@ -21,6 +21,7 @@ import RotoV.Lemmas.ListNested
 import RotoV.Lemmas.ListFor
 import RotoV.Lemmas.ListSelfEq
 import RotoV.Lemmas.ListIter
+import RotoV.Lemmas.ListBind
 
 namespace RotoV.C15
 open RotoV RotoV.ListM
@@ -785,5 +786,133 @@ theorem iter_keeps_its_list (sz n : Nat) (ops : List IOp) (body : List Op) (v : 
   runSt_slot_frame body (Inv_irunSt ops (Inv_init sz n)) v hb
 
 example : ∀ op ∈ [Op.push 0 1, .concat 0 0 0, .dropH 1], op.writes 2 = false := by decide
+
+/-! ### Round 5 — the script-side bindings (`impl ErasedList` in `library! { … }`, src/runtime/basic.rs)
+
+The table `Gen.ListBind.bindings` is regenerated from the bodies of the bindings
+on every run; `Binding.ok` is a checker run over it (by the kernel), proved
+sound below: until this round the bindings were tied by the script
+correspondence only. -/
+
+/-- the regenerated table passes the checker: every binding the property names
+    calls the list function `canon` gives for it, passes exactly its own
+    parameters in that order, and casts — on the way in and on the way out —
+    only to `u64` / `usize` -/
+theorem bindings_pass_the_checker : ∀ b ∈ Gen.ListBind.bindings, b.ok = true := by
+  decide
+
+/-- the checker is not vacuous: it rejects a `capacity` that asks for the
+    length, a `swap` that passes one index twice, an index narrowed to 32 bits,
+    a length handed back through `u32`; and it accepts the rows as they should read -/
+example : Binding.ok ⟨.capacity, 1, .len, [(0, none)], .cast .u64⟩ = false ∧
+    Binding.ok ⟨.swap, 3, .swap, [(0, none), (1, some .usize), (1, some .usize)], .asIs⟩ = false ∧
+    Binding.ok ⟨.swap, 3, .swap, [(0, none), (1, some .u32), (2, some .usize)], .asIs⟩ = false ∧
+    Binding.ok ⟨.len, 1, .len, [(0, none)], .cast .u32⟩ = false ∧
+    Binding.ok ⟨.contains, 2, .indexOwned, [(0, none), (1, none)], .asIs⟩ = false ∧
+    Binding.ok ⟨.swap, 3, .swap, [(0, none), (1, some .usize), (2, some .usize)], .asIs⟩ = true ∧
+    Binding.ok ⟨.index, 2, .indexOwned, [(0, none), (1, none)], .mapCast .u64⟩ = true := by decide
+
+/-- every operation the property lists for scripts (`join`: T5) has a binding in the table -/
+theorem every_listed_binding_present : ∀ nm ∈ BName.all, (bindingOf nm).isSome = true := by
+  decide
+
+/-- **the script-side names are the list operations.** For every binding in the
+    regenerated table that the property names, ALL destinations and ALL actual
+    parameters a script can pass (anything below 2^64: handles, element values,
+    indices — also indices far out of range): the operation the binding's body
+    performs is the one the script-side name means (`scriptMeaning`: `l.swap(i,
+    j)` is `swap` of `l` at `i`, `j` in that order, `l.capacity()` is the
+    capacity, not the length, `l.get(i)` reads index `i` itself, …), and every
+    length / capacity / index below 2^64 comes back as the list gave it. -/
+theorem script_bindings_are_the_list_operations :
+    ∀ b ∈ Gen.ListBind.bindings, b.name ≠ .other →
+      (∀ (d : Nat) (actuals : List Nat), (∀ v ∈ actuals, v < 2 ^ 64) →
+        b.toOp d actuals = scriptMeaning b.name d actuals) ∧
+      (∀ o : Out, OutSmall o → b.convOut o = o) :=
+  fun b hb hn =>
+    ⟨fun d actuals h => ok_toOp b (bindings_pass_the_checker b hb) hn d actuals h,
+     fun o ho => ok_convOut b (bindings_pass_the_checker b hb) hn o ho⟩
+
+/-- what the names mean, spelled out (the specification side of the theorem above) -/
+example (d h i j v : Nat) :
+    scriptMeaning .swap d [h, i, j] = some (.swap h i j) ∧
+    scriptMeaning .get d [d, h, i] = some (.get h i) ∧
+    scriptMeaning .push d [h, v] = some (.push h v) ∧
+    scriptMeaning .contains d [h, v] = some (.contains h v) ∧
+    scriptMeaning .index d [h, v] = some (.index h v) ∧
+    scriptMeaning .concat d [h, i] = some (.concat d h i) ∧
+    scriptMeaning .new d [v] = some (.new d) ∧
+    scriptMeaning .len d [h] = some (.len h) ∧
+    scriptMeaning .capacity d [h] = some (.capacity h) ∧
+    scriptMeaning .isEmpty d [h] = some (.isEmpty h) := by
+  simp [scriptMeaning, canon, opOf]
+
+/-- a script call run through the regenerated table (`callOp`: look the name up,
+    interpret the row) is the operation its name means -/
+theorem script_call_is_the_operation (nm : BName) (hnm : nm ∈ BName.all) (d : Nat)
+    (actuals : List Nat) (h : ∀ v ∈ actuals, v < 2 ^ 64) :
+    callOp (nm, d, actuals) = scriptMeaning nm d actuals := by
+  have hs := every_listed_binding_present nm hnm
+  unfold callOp
+  cases hb : bindingOf nm with
+  | none => simp [hb] at hs
+  | some b =>
+    obtain ⟨hmem, hname⟩ := bindingOf_mem hb
+    have hne : b.name ≠ .other := by
+      rw [hname]; intro he; subst he; revert hnm; decide
+    simp only [Option.bind]
+    rw [← hname]
+    exact (script_bindings_are_the_list_operations b hmem hne).1 d actuals h
+
+example : callOp (.swap, 9, [0, 2 ^ 32, 1]) = some (.swap 0 (2 ^ 32) 1) ∧
+    callOp (.capacity, 9, [2]) = some (.capacity 2) ∧
+    callOp (.get, 1, [1, 0, 2 ^ 63 + 5]) = some (.get 0 (2 ^ 63 + 5)) := by decide
+
+/-- **script histories refine shared vectors.** A history of script calls
+    (listed names, parameters below 2^64) whose calls mean the operations `ops`
+    performs — through the bindings as they read now — exactly `ops`, so T1
+    holds for it: every result is what vectors shared between the handles give. -/
+theorem script_history_refines_vec (sz n : Nat) (cs : List (BName × Nat × List Nat)) (ops : List Op)
+    (hcs : ∀ c ∈ cs, c.1 ∈ BName.all ∧ ∀ v ∈ c.2.2, v < 2 ^ 64)
+    (hm : cs.map (fun c => scriptMeaning c.1 c.2.1 c.2.2) = ops.map some)
+    (hp : ∀ o ∈ run sz (St.init n) ops, o ≠ .fault .panic)
+    (hq : NoReflShortcut (Spec.init n) ops) :
+    cs.map callOp = ops.map some ∧
+      List.zipWith eraseCap ops (run sz (St.init n) ops) = specRun (Spec.init n) ops ∧
+      Rel (runSt sz (St.init n) ops) (specRunSt (Spec.init n) ops) := by
+  refine ⟨?_, refines_vec sz n ops hp hq⟩
+  rw [← hm]
+  apply List.map_congr_left
+  intro c hc
+  exact script_call_is_the_operation c.1 (hcs c hc).1 c.2.1 c.2.2 (hcs c hc).2
+
+example : [((BName.new, 0, [0]) : BName × Nat × List Nat), (.push, 9, [0, 7]), (.len, 9, [0])].map callOp
+    = [Op.new 0, .push 0 7, .len 0].map some := by decide
+
+/-- **what a script sees is what the list returned** — the result half without a
+    hypothesis on the result. After ANY history (all element sizes, all numbers
+    of variables), for every listed binding and all actual parameters below
+    2^64: the conversion the binding applies to the result of the operation it
+    performs changes nothing — a length, capacity or index goes through `as u64`
+    and is below 2^64 in every reachable state (`len ≤ cap ≤ usize::MAX`, an
+    index is below the length: `observers_small`), every other result (unit,
+    bool, an element — which may be any value, e.g. an `f64` bit pattern —, a
+    list) is handed back as it is (`retFits`). -/
+theorem script_results_come_back_unchanged (sz n : Nat) (ops : List Op) :
+    ∀ b ∈ Gen.ListBind.bindings, b.name ≠ .other →
+      ∀ (d : Nat) (actuals : List Nat) (op : Op), (∀ v ∈ actuals, v < 2 ^ 64) →
+        b.toOp d actuals = some op →
+        b.convOut (step sz (runSt sz (St.init n) ops) op).1 = (step sz (runSt sz (St.init n) ops) op).1 :=
+  fun b hb hn d actuals op h hop =>
+    ok_result b (bindings_pass_the_checker b hb) hn (Inv_runSt ops (Inv_init sz n)) d actuals op h hop
+
+/-- not vacuous: an element read by `get` may be ≥ 2^64 (an `f64`), which is why
+    `get`'s result must not go through a cast at all — the checker rejects it — and
+    a length through `u8` does change a result -/
+example : Binding.ok ⟨.get, 3, .listGet, [(0, none), (1, none), (2, none)], .mapCast .u64⟩ = false ∧
+    (⟨.get, 3, .listGet, [(0, none), (1, none), (2, none)], .mapCast .u64⟩ : Binding).convOut
+      (step 8 (runSt 8 (St.init 1) [.fromVec 0 [f64Base + 5]]) (.get 0 0)).1
+      ≠ (step 8 (runSt 8 (St.init 1) [.fromVec 0 [f64Base + 5]]) (.get 0 0)).1 ∧
+    (⟨.len, 1, .len, [(0, none)], .cast .u8⟩ : Binding).convOut (.nat 261) = .nat 5 := by decide
 
 end RotoV.C15
